@@ -197,16 +197,20 @@ func (g *evGen) lit() string {
 
 func (g *evGen) expr(t, d int) string {
 	g.size--
-	var e string
-	switch t {
-	case tI:
-		e = g.intExpr(d)
-	case tL:
-		e = g.listExpr(d)
-	default:
-		e = g.boolExpr(d)
+	raw := func() string {
+		switch t {
+		case tI:
+			return g.intExpr(d)
+		case tL:
+			return g.listExpr(d)
+		}
+		return g.boolExpr(d)
 	}
-	return g.wrap(e)
+	if g.r.Chance(30) {
+		// traced: the expression becomes an argument of the call (vtr …)
+		return "(vtr " + g.sub("call.arg", raw) + ")"
+	}
+	return raw()
 }
 
 func (g *evGen) leaf(t int) string {
@@ -863,12 +867,27 @@ func (g *evGen) exitOrCtl(t, d int) string {
 		tg := cand[g.r.Intn(len(cand))]
 		var ex string
 		switch tg.kind {
-		case "ret-from":
-			g.count("return-from")
-			ex = fmt.Sprintf("(return-from %s %s)", tg.name, g.sub("return-from.value", func() string { return g.expr(t, d-1) }))
-		case "ret-nil":
-			g.count("return")
-			ex = fmt.Sprintf("(return %s)", g.sub("return-from.value", func() string { return g.expr(t, d-1) }))
+		case "ret-from", "ret-nil":
+			value := g.sub("return-from.value", func() string {
+				if g.avoid("return-from.value-same-block", tg.kind) {
+					// a return-from to the same block inside the value form: listed pair cell
+					nt := append([]gtarget{}, g.targets...)
+					for i := range nt {
+						if nt[i].name == tg.name && nt[i].kind == tg.kind {
+							nt[i].ok = false
+						}
+					}
+					g.targets = nt
+				}
+				return g.expr(t, d-1)
+			})
+			if tg.kind == "ret-from" {
+				g.count("return-from")
+				ex = fmt.Sprintf("(return-from %s %s)", tg.name, value)
+			} else {
+				g.count("return")
+				ex = fmt.Sprintf("(return %s)", value)
+			}
 		default:
 			g.count("go")
 			ex = fmt.Sprintf("(go %s)", tg.name)
@@ -899,7 +918,15 @@ func (g *evGen) exitOrCtl(t, d int) string {
 	case 6:
 		g.count("ignore-errors")
 		if t == tI {
-			inner := g.sub("or.first", func() string { return fmt.Sprintf("(ignore-errors %s)", g.seq("ignore-errors", t, d, 2)) })
+			// the primary value (nil after an error) is taken through multiple-value-list: testing the
+			// multiple values of ignore-errors directly is a C01 finding (mv.or-nonlast / mv.if-test)
+			inner := g.sub("or.first", func() string {
+				return g.sub("call.arg", func() string {
+					return g.sub("mvl.arg", func() string {
+						return fmt.Sprintf("(car (multiple-value-list (ignore-errors %s)))", g.seq("ignore-errors", t, d, 2))
+					})
+				})
+			})
 			return fmt.Sprintf("(or %s %s)", inner, g.lit())
 		}
 		return fmt.Sprintf("(ignore-errors %s)", g.seq("ignore-errors", t, d, 2))
@@ -941,6 +968,12 @@ func (g *evGen) tagbodyExpr(t, d int) string {
 		g.iter *= 3
 	}
 	defer func() { g.iter = savedIter }()
+	wrapper := "progn.body"
+	if back {
+		wrapper = "let.body"
+	}
+	restoreWrapper := g.enter(wrapper)
+	defer restoreWrapper()
 	saved := g.targets
 	var items []string
 	for i := 0; i < n; i++ {
@@ -996,8 +1029,12 @@ func (g *evGen) defun(recursive bool) string {
 		savedShadow := g.shadow
 		body = g.withVars(nv, func() string {
 			g.shadow = true // no lambda inside a recursive function (closure finding)
-			base := g.expr(tI, d-2)
-			stepv := g.expr(tI, d-2)
+			var base, stepv string
+			g.sub("block.last", func() string {
+				base = g.sub("if.then", func() string { return g.expr(tI, d-2) })
+				stepv = g.sub("if.else", func() string { return g.sub("call.arg", func() string { return g.expr(tI, d-2) }) })
+				return ""
+			})
 			g.shadow = savedShadow
 			args := []string{fmt.Sprintf("(- %s 1)", ps[0])}
 			for _, p := range ps[1:] {
@@ -1007,7 +1044,8 @@ func (g *evGen) defun(recursive bool) string {
 		})
 	} else {
 		g.count("defun")
-		body = g.withVars(nv, func() string { return g.seq("defun", tI, d, 2) })
+		// the body is the body of the function's implicit block
+		body = g.withVars(nv, func() string { return g.seq("block", tI, d, 2) })
 	}
 	g.targets, g.inFn, g.iter, g.vars = savedT, savedIn, savedIter, savedVars
 	if !recursive {
